@@ -162,14 +162,24 @@ class Doc:
     version: str = "1.0"
     validation: str = "Unknown"
 
+    def _cached(self, key, build):
+        # the dataclass is frozen; lookup maps are cached outside its fields (they do not take part in equality)
+        cache = self.__dict__.get("_maps")
+        if cache is None:
+            cache = {}
+            object.__setattr__(self, "_maps", cache)
+        if key not in cache:
+            cache[key] = build()
+        return cache[key]
+
     def type_map(self):
-        return {t.name: t for t in self.types}
+        return self._cached("t", lambda: {t.name: t for t in self.types})
 
     def param_map(self):
-        return {p.name: p for p in self.params}
+        return self._cached("p", lambda: {p.name: p for p in self.params})
 
     def container_map(self):
-        return {c.name: c for c in self.containers}
+        return self._cached("c", lambda: {c.name: c for c in self.containers})
 
 
 KIND_TAG = {"integer": "IntegerParameterType", "float": "FloatParameterType", "enumerated": "EnumeratedParameterType",
